@@ -56,4 +56,14 @@ done <<'MAP'
 68 C18
 69 C14 C05
 70 C20 C19
+71 C01 C02 C07 C08 C04
+72 C06 C02 C07 C05 C01 C04
+73 C09 C01 C03
+74 C12 C16 C06 C13
+75 C14 C05
+76 C17 C04 C05
+77 C13
+78 C03 C01 C15 C11 C18
+79 C16 C05
+80 C12 C06 C17 C16 C05
 MAP
